@@ -114,11 +114,21 @@ func ruleC05(c *Ctx) {
 	c.RequireNoCrashFrom("panicreach", roots, exempt, 40)
 	// typed input is always set on success
 	rf := c.Func(pTypes, "(*TxInput).readFrom")
-	if rf != nil && len(rf.AnonFuncs) >= 1 {
-		cl := rf.AnonFuncs[0]
-		sc := c.ScopeFunc(cl)
-		sc.Name = fname(rf) + " commitment reader"
-		c.RequireCall("mustpass", sc, true, pTypes+".parseTypedInput")
+	if rf != nil {
+		// the commitment reader is whatever function readFrom hands to its first ReadExtensibleString
+		// (a closure, or a method value)
+		var cl *ssa.Function
+		if res := callsTo(rf, false, "encoding/blockchain.ReadExtensibleString"); len(res) >= 1 && len(res[0].Common().Args) >= 2 {
+			cl = funcOperand(res[0].Common().Args[1])
+		}
+		if cl == nil {
+			c.Require("mustpass", fname(rf)+" commitment reader ⇒ "+pTypes+".parseTypedInput", false, "the function handed to the first ReadExtensibleString of readFrom could not be resolved")
+		} else {
+			cl = c.viewOf(cl)
+			sc := c.ScopeFunc(cl)
+			sc.Name = fname(rf) + " commitment reader"
+			c.RequireCall("mustpass", sc, true, pTypes+".parseTypedInput")
+		}
 	}
 	pti := c.Func(pTypes, "parseTypedInput")
 	// the failure-only branch must depend on the type byte just read into the local [1]byte buffer
